@@ -24,4 +24,19 @@ CHECKS = {
         technique="runtime contracts (icontract post-conditions on ResourceQuerySegment.to_absolute and Query.to_absolute) against a component-list normalisation model; exhaustive small paths x directories, random multi-segment queries; idempotence and untouched-segment conditions",
         text="All 31 directories x all paths of up to 4 (quick) / 6 (thorough) components over {a,b,.,..,x.y} enumerated completely; random queries with several named resource segments, header parameters and transformations. Exploration beyond those bounds.",
         note="Model is 15 lines (anchor on leading '.'/'..', pop on '..', reject above root); directory argument assumed normalised."),
+    "C07": dict(
+        category=_EXPL, design_ref="DESIGN.md section 4, C07",
+        technique="reference-model monitor: executable StoreModel compared with the real store after every operation over the whole key universe (all reads, multiplicities), raw-snapshot read-purity monitor, recording icontract invariant on MemoryStore; delta-debugged witnesses",
+        text="Thousands of seeded well-formed histories over a 12-key confusable universe on 14 configurations (memory/directory store plain, behind ProxyStore, IndexerStore, overlay with empty fall-back, mount-point default, mounted under a prefix, default global composition). Exploration: no claim beyond the histories run.",
+        note="Only well-formed histories (model preconditions); failing reads may raise anything or return None; timestamps/mimetype defaults not compared."),
+    "C14": dict(
+        category=_EXPL, design_ref="DESIGN.md section 4, C14",
+        technique="reference-model monitor on the composite (union view with pinned mount directories) plus per-part models compared with the raw part stores after every operation (routing and key translation observed through uniquely tagged values); to_root_key round trips",
+        text="Seeded random mount tables (0-3 mounts, sibling/nested, one/two-component prefixes, with/without default, memory and directory parts, hidden default content under mount prefixes) and histories on keys inside, outside, at and next to mount points. Exploration.",
+        note="Outer prefixes mounted before inner ones; unroutable absent keys may answer false or raise."),
+    "C15": dict(
+        category=_EXPL, design_ref="DESIGN.md section 4, C15",
+        technique="reference-model monitor (view = plain StoreModel initialised from the fall-back content) after every operation + fall-back immutability snapshot compared after every operation",
+        text="Seeded random fall-back contents and well-formed histories through the overlay (incl. re-creation after removal, both metadata-update styles, recursive removal) for memory and directory stores in either role. Exploration.",
+        note="Removed key may read as raises or None; well-formed histories only."),
 }
